@@ -33,6 +33,18 @@ CHECKS = {
          "Exploration: Euclidean, Manhattan, Minkowski(1..8), Hamming and Mahalanobis distances on generated triples (f32/f64) against closed forms, with identity, symmetry, non-negativity, triangle inequality and the cross-identities Minkowski(1)=Manhattan, Minkowski(2)=Euclidean, Mahalanobis(I)=Euclidean; length mismatches must panic.",
          "Trusts the closed forms coded in harness/src/props/c17.rs and oracle::solve for the Mahalanobis reference.",
          "DESIGN.md section 7 C17"),
+ "C04": ("property-based testing (proptest) plus exhaustive enumeration of all multisets of <= 5/6 points of a 3x3 lattice, against a brute-force neighbour reference and a tie-aware feasibility oracle for the estimators",
+         "Exploration with an exhaustive part: both search structures are compared with brute force on generated point sets (ties, duplicates, identical, collinear, single point), for every query the k smallest distances (any tie-break accepted) and the exact radius set, entries carrying true index / distance / point, and invalid k / r returning errors; the k-NN classifier and regressor predictions must be achievable by some exact k-nearest set (water-filling feasibility for votes, subset enumeration for means) under both weightings.",
+         "Reference distances come from the library's own Distance implementations (pinned separately by C17).",
+         "DESIGN.md section 7 C04"),
+ "C12": ("property-based testing (proptest) with the k-means++ draw under a generated seed (cfg hook) and the crate-private filtering tree driven through a cfg re-export, against exhaustive nearest-centroid search",
+         "Exploration: fitted models are read back through serde (k, size, _y, centroids) and checked for finiteness, size = assignment counts, sum = n, centroid = mean of its rows, predict = nearest centroid; the BBD-tree assignment step is run on arbitrary centroid sets (data rows, coincident, far outside, exact ties) and its membership, counts, sums and distortion compared with exhaustive search.",
+         "Needs hooks H1 (bbd_clustering wrapper) and H3 (schedule seed in kmeans_plus_plus); both add-only under cfg(smartcore_verif).",
+         "DESIGN.md section 7 C12"),
+ "C13": ("property-based testing (proptest) plus exhaustive enumeration of all subsets of <= 7 lattice points, against the textbook definition computed by brute force and union-find; differential between the two search backends",
+         "Exploration with an exhaustive part: for every generated data set, eps (on, between, below and above realised distances), min_samples and both backends the labelling read through serde must satisfy the density-based definition (cores labelled, cores share a label iff density-connected, border points carry a neighbouring core's label, all else noise, labels 0..c-1, num_classes = c), be backend independent on cores and noise, and predict must be a plurality bucket (noise when no neighbour).",
+         "Neighbourhoods of the reference use the library's Distance implementations (pinned by C17).",
+         "DESIGN.md section 7 C13"),
 }
 ALL = ["C%02d" % i for i in range(1, 21)]
 NA_REASON = {}
